@@ -7,6 +7,7 @@ import (
 	"sort"
 	"sync"
 
+	"github.com/lni/dragonboat/v4/internal/verifkit/vsched"
 	"github.com/lni/dragonboat/v4/raftio"
 	pb "github.com/lni/dragonboat/v4/raftpb"
 )
@@ -84,6 +85,7 @@ func (d *DB) ListNodeInfo() ([]raftio.NodeInfo, error) {
 
 // SaveBootstrapInfo implements ILogDB.
 func (d *DB) SaveBootstrapInfo(s, r uint64, bs pb.Bootstrap) error {
+	vsched.Point() // the store is a shared synchronised object: its operations are scheduling points under schedx
 	d.mu.Lock()
 	defer d.mu.Unlock()
 	if err := d.hook("SaveBootstrapInfo", s, r); err != nil {
@@ -95,6 +97,7 @@ func (d *DB) SaveBootstrapInfo(s, r uint64, bs pb.Bootstrap) error {
 
 // GetBootstrapInfo implements ILogDB.
 func (d *DB) GetBootstrapInfo(s, r uint64) (pb.Bootstrap, error) {
+	vsched.Point() // the store is a shared synchronised object: its operations are scheduling points under schedx
 	d.mu.Lock()
 	defer d.mu.Unlock()
 	n := d.get(s, r)
@@ -115,6 +118,7 @@ func cloneEntry(e pb.Entry) pb.Entry {
 
 // SaveRaftState implements ILogDB.
 func (d *DB) SaveRaftState(updates []pb.Update, shardID uint64) error {
+	vsched.Point() // the store is a shared synchronised object: its operations are scheduling points under schedx
 	d.mu.Lock()
 	defer d.mu.Unlock()
 	for _, ud := range updates {
@@ -148,6 +152,7 @@ func (d *DB) SaveRaftState(updates []pb.Update, shardID uint64) error {
 // IterateEntries implements ILogDB.
 func (d *DB) IterateEntries(ents []pb.Entry, size uint64, s, r uint64,
 	low uint64, high uint64, maxSize uint64) ([]pb.Entry, uint64, error) {
+	vsched.Point() // the store is a shared synchronised object: its operations are scheduling points under schedx
 	d.mu.Lock()
 	defer d.mu.Unlock()
 	n := d.get(s, r)
@@ -173,6 +178,7 @@ func (d *DB) IterateEntries(ents []pb.Entry, size uint64, s, r uint64,
 
 // ReadRaftState implements ILogDB.
 func (d *DB) ReadRaftState(s, r uint64, snapshotIndex uint64) (raftio.RaftState, error) {
+	vsched.Point() // the store is a shared synchronised object: its operations are scheduling points under schedx
 	d.mu.Lock()
 	defer d.mu.Unlock()
 	n := d.get(s, r)
@@ -200,6 +206,7 @@ func (d *DB) ReadRaftState(s, r uint64, snapshotIndex uint64) (raftio.RaftState,
 
 // RemoveEntriesTo implements ILogDB.
 func (d *DB) RemoveEntriesTo(s, r uint64, index uint64) error {
+	vsched.Point() // the store is a shared synchronised object: its operations are scheduling points under schedx
 	d.mu.Lock()
 	defer d.mu.Unlock()
 	if err := d.hook("RemoveEntriesTo", s, r); err != nil {
@@ -223,6 +230,7 @@ func (d *DB) CompactEntriesTo(s, r uint64, index uint64) (<-chan struct{}, error
 
 // SaveSnapshots implements ILogDB.
 func (d *DB) SaveSnapshots(updates []pb.Update) error {
+	vsched.Point() // the store is a shared synchronised object: its operations are scheduling points under schedx
 	d.mu.Lock()
 	defer d.mu.Unlock()
 	for _, ud := range updates {
@@ -241,6 +249,7 @@ func (d *DB) SaveSnapshots(updates []pb.Update) error {
 
 // GetSnapshot implements ILogDB.
 func (d *DB) GetSnapshot(s, r uint64) (pb.Snapshot, error) {
+	vsched.Point() // the store is a shared synchronised object: its operations are scheduling points under schedx
 	d.mu.Lock()
 	defer d.mu.Unlock()
 	return d.get(s, r).snapshot, nil
@@ -248,6 +257,7 @@ func (d *DB) GetSnapshot(s, r uint64) (pb.Snapshot, error) {
 
 // RemoveNodeData implements ILogDB.
 func (d *DB) RemoveNodeData(s, r uint64) error {
+	vsched.Point() // the store is a shared synchronised object: its operations are scheduling points under schedx
 	d.mu.Lock()
 	defer d.mu.Unlock()
 	if err := d.hook("RemoveNodeData", s, r); err != nil {
@@ -259,6 +269,7 @@ func (d *DB) RemoveNodeData(s, r uint64) error {
 
 // ImportSnapshot implements ILogDB.
 func (d *DB) ImportSnapshot(ss pb.Snapshot, r uint64) error {
+	vsched.Point() // the store is a shared synchronised object: its operations are scheduling points under schedx
 	d.mu.Lock()
 	defer d.mu.Unlock()
 	if err := d.hook("ImportSnapshot", ss.ShardID, r); err != nil {
